@@ -226,7 +226,8 @@ def finish(engine, prop, tier, seed, runs, res, wall, write_evidence=True, diges
 
 
 REQUIRED_PROBES = {
-    "C11": ("discriminating_query", "read_after_fault:decode", "fault_cache_flood"),
+    "C11": ("discriminating_query", "read_after_fault:decode", "fault_cache_flood", "fault_cancelled_call:decode",
+            "fault_cancelled_call:encode"),
     "C12": ("read_after_fault:get", "read_after_fault:get_alphabet", "rejected_after_valid_prefix"),
     "C07": ("alphabet_reads", "alphabet_strings_valence_checked"),
     "C06": ("strict_at_capacity", "strict_one_over", "strict_one_below", "discriminating_query"),
